@@ -613,6 +613,11 @@ impl nervusdb_query::WriteableGraph for WriteTxn<'_> {
         rel: RelTypeId,
         dst: InternalNodeId,
     ) -> nervusdb_query::Result<()> {
+        if self.inner.is_node_tombstoned_in_txn(src) || self.inner.is_node_tombstoned_in_txn(dst) {
+            return Err(nervusdb_query::Error::Other(
+                "cannot create a relationship on a node deleted in this transaction".into(),
+            ));
+        }
         self.inner.create_edge(src, rel, dst);
         Ok(())
     }
